@@ -2,6 +2,7 @@
     Only statements, [exact], and [Print Assumptions]. *)
 From Coq Require Import String ZArith List.
 From NX Require Import Bytes Frame Wire Frame_proofs.
+From NX Require PyLite Src_all Src_serialframe_proofs Src_frame_corollaries.
 Open Scope Z_scope.
 
 (** every frame id 0..255, every payload of 0..65529 bytes: the emitted bytes
@@ -23,6 +24,45 @@ Theorem C01_refuse : forall fid p,
   frame_create fid p = Raise "struct.error".
 Proof. exact frame_create_refuse. Qed.
 
+(** ** the same, about the text of serialframe.py as it is now: the abstract syntax
+    regenerated from /repo (gen/Src_serialframe.v), run by the PyLite interpreter with
+    any fuel >= 1 (resp. 3), on the object SerialFrame() *)
+Section OnSource.
+Import PyLite Src_all Src_serialframe_proofs Src_frame_corollaries.
+Open Scope string_scope.
+
+Theorem C01_constructor_src : forall n, construct program (S n) "SerialFrame" [] = PyLite.Ok sf.
+Proof. exact construct_spec. Qed.
+
+Theorem C01_layout_src : forall n fid p,
+  0 <= fid <= 255 -> zlen p <= 65529 ->
+  call_method program (1 + n) sf "frame_create" [PInt fid; PBytes p] =
+  PyLite.Ok (PBytes (wire (Z.to_N fid) p), sf).
+Proof. exact src_frame_create_layout. Qed.
+
+Theorem C01_none_payload_src : forall n fid,
+  0 <= fid <= 255 ->
+  call_method program (1 + n) sf "frame_create" [PInt fid; PNone] =
+  PyLite.Ok (PBytes (wire (Z.to_N fid) []), sf).
+Proof. exact src_frame_create_none. Qed.
+
+Theorem C01_roundtrip_src : forall n fid p,
+  0 <= fid <= 8 -> wf_bytes p -> zlen p <= 65529 ->
+  call_method program (3 + n) sf "frame_decode" [PBytes (wire (Z.to_N fid) p)] =
+  PyLite.Ok (frame_obj (enum_id fid) p noerr, sf).
+Proof. exact src_frame_roundtrip. Qed.
+
+Theorem C01_refuse_src : forall n fid p,
+  0 <= fid <= 255 -> ~ zlen p <= 65529 ->
+  call_method program (1 + n) sf "frame_create" [PInt fid; PBytes p] = Exc "struct.error".
+Proof. exact src_frame_create_refuse. Qed.
+
+(** the interpreted source IS the model, input for input (no hypothesis on the bytes) *)
+Theorem C01_source_refines_model : forall n fid data,
+  call_method program (1 + n) sf "frame_create" [PInt fid; PBytes data] = emb_create (Frame.frame_create fid data).
+Proof. exact frame_create_spec. Qed.
+End OnSource.
+
 (** non-vacuity: id 5 with a 3-byte payload *)
 Example C01_example :
   frame_create 5 [1; 2; 3]%N = Ok [85; 9; 0; 5; 1; 2; 3; 6; 166]%N /\
@@ -32,3 +72,6 @@ Proof. split; vm_compute; reflexivity. Qed.
 Print Assumptions C01_layout.
 Print Assumptions C01_roundtrip.
 Print Assumptions C01_refuse.
+Print Assumptions C01_layout_src.
+Print Assumptions C01_roundtrip_src.
+Print Assumptions C01_refuse_src.
